@@ -72,6 +72,31 @@ def rebuilt(x):
         return x
 
 
+def default_codes(rows):
+    """the documented default encoding of a grid, computed by the harness: (type index, status, colour value) per cell"""
+    from gym_gridverse.grid_object import grid_object_registry
+    idx = {t.__name__: i for i, t in enumerate(list(grid_object_registry))}
+    return np.array([[[idx[o[0]], o[1], o[2]] for o in row] for row in rows], int)
+
+
+def default_mismatch(arrays, x):
+    """message if the default-representation arrays of state / observation x disagree with the harness encoding"""
+    from ..desc import sdesc
+    k = sdesc(x)
+    try:
+        want = default_codes(k[0])
+    except KeyError:
+        return None  # an object type the harness does not know by name
+    got = np.asarray(arrays['grid'])
+    if got.shape != want.shape or not np.array_equal(got, want):
+        bad = [(int(y), int(xx)) for y, xx in zip(*np.where((got != want).any(axis=2)))][:3] if got.shape == want.shape else 'shape'
+        return f'grid entries at {bad} are not (type index, status, colour) of the cells, e.g. {[(got[y][xx].tolist(), want[y][xx].tolist()) for y, xx in bad][:2] if bad != "shape" else ""}'
+    item = default_codes(((k[4],),))[0][0]
+    if not np.array_equal(np.asarray(arrays['item']), item):
+        return f'item entry {np.asarray(arrays["item"]).tolist()} is not the code {item.tolist()} of the held object'
+    return None
+
+
 def door_sequences(ident, seed, extra=2):
     """operation sequences that drive a key-and-door configuration through picking the key up and opening the door
     (breadth-first search over the real functional_step from the seeded initial state), then `extra` more steps"""
@@ -156,7 +181,8 @@ def judge_sequence(kind, ident, seed, ops, wrap_state=False, reuse=False):
         orep = make_observation_representation(oname, twin.observation_space)
         srep = make_state_representation(sname, twin.state_space) if twin.state_space.can_be_represented else None
         if op[0] == 'orep':
-            ge.set_observation_representation(op[1])
+            # with the state wrapper on top, the switch is requested on the wrapper itself (forwarded to the environment)
+            (top if wrap_state else ge).set_observation_representation(op[1])
             oname = op[1]
             if not spaces_equal(ge.observation_space, make_observation_representation(oname, twin.observation_space).space):
                 return f'{where}: advertised observation space was not updated consistently'
@@ -205,6 +231,18 @@ def judge_sequence(kind, ident, seed, ops, wrap_state=False, reuse=False):
             if reward != tr or bool(done) != bool(td) or isinstance(reward, bool):
                 return f'{where}: step returned reward/done ({reward}, {done}), the wrapped environment gives ({tr}, {td})'
         want_obs = orep.convert(rebuilt(twin.observation))
+        if oname == 'default':
+            dm = default_mismatch(want_obs if wrap_state else obs, twin.observation)
+            if not wrap_state and dm:
+                return f'{where}: returned observation [default]: {dm}'
+            if wrap_state and op[0] == 'step' and isinstance(info, dict) and isinstance(info.get('observation'), dict):
+                dm = default_mismatch(info['observation'], twin.observation)
+                if dm:
+                    return f'{where}: info["observation"] [default]: {dm}'
+        if wrap_state and sname == 'default':
+            dm = default_mismatch(obs, twin.state)
+            if dm:
+                return f'{where}: state wrapper output [default]: {dm}'
         if wrap_state:
             want_state = srep.convert(rebuilt(twin.state))
             if not arrays_equal(obs, want_state):
